@@ -48,7 +48,42 @@ def handle (op _opts payload : String) : String :=
   else "bad-request"
 end FC
 
+/-! ### POSCAR text: `x<title>;a:b:c/a:b:c/a:b:c;zn:x:y:z,…` (cell rows in angstrom and direct coordinates as 16-decimal
+integers); loaded: `x<title>;scale;cell;<0|1 cartesian>;atoms` -/
+namespace PO
+open Iodata.Fmt.PoscarW
+
+def decV (s : String) : V3 :=
+  match s.splitOn ":" with
+  | [a, b, c] => ⟨decFx a, decFx b, decFx c⟩
+  | _ => ⟨⟨false, 0⟩, ⟨false, 0⟩, ⟨false, 0⟩⟩
+def encV (v : V3) : String := ":".intercalate [encFx v.a, encFx v.b, encFx v.c]
+def decAtom (s : String) : Atom :=
+  match s.splitOn ":" with
+  | [z, a, b, c] => ⟨decNat z, ⟨decFx a, decFx b, decFx c⟩⟩
+  | _ => ⟨0, decV ""⟩
+def encAtom (a : Atom) : String := toString a.zn ++ ":" ++ encV a.pos
+
+def decObj (s : String) : Obj :=
+  match s.splitOn ";" with
+  | [t, c, ats] => ⟨decStr t, decList "/" decV c, decList "," decAtom ats⟩
+  | _ => ⟨[], [], []⟩
+def encLoaded (x : Loaded) : String :=
+  ";".intercalate [encStr x.title, encFx x.scale, encList "/" encV x.cell, (if x.cartesian then "1" else "0"), encList "," encAtom x.atoms]
+
+def handle (op _opts payload : String) : String :=
+  let L := Gen.LayoutsW.poscarL
+  let T := Gen.Layouts.tables
+  if op == "dump" then okHex (dump T L (decObj payload))
+  else if op == "load" then
+    match load T L (linesOfHex payload) with
+    | .ok o => "ok " ++ encLoaded o
+    | .error _ => "err LoadError"
+  else "bad-request"
+end PO
+
 def handle : List String → Option String
+  | ["fmtw", op, "poscar", opts, payload] => some (PO.handle op opts payload)
   | ["fmtw", op, "fcidump", opts, payload] => some (FC.handle op opts payload)
   | _ => none
 
